@@ -82,3 +82,25 @@ func refWindowRecvMACs(c *otr3.Conversation) map[[2]uint32][]byte {
 	}
 	return out
 }
+
+// ---- AKE key derivation (spec: "Computing AES keys, MAC keys, and the secure session id") ----
+type refAKEKeys struct {
+	ssid                   []byte
+	c, cp, m1, m2, m1p, m2p []byte
+}
+
+func refAKEKeysFor(s *big.Int) refAKEKeys {
+	sec := refMPI(s)
+	h2 := func(b byte) []byte {
+		h := sha256.New()
+		h.Write([]byte{b})
+		h.Write(sec)
+		return h.Sum(nil)
+	}
+	var k refAKEKeys
+	k.ssid = h2(0x00)[:8]
+	cc := h2(0x01)
+	k.c, k.cp = cc[:16], cc[16:]
+	k.m1, k.m2, k.m1p, k.m2p = h2(0x02), h2(0x03), h2(0x04), h2(0x05)
+	return k
+}
